@@ -1,8 +1,127 @@
-(* C14 property theorems: statements only, each closed by `exact`, with Print Assumptions. *)
+(* C14 property theorems: statements only, each closed by `exact`, with Print Assumptions.
+   T is any payoff type for the index-arithmetic theorems; the numerical ones are about the exact
+   instance NumQ.  `consistent g nums`: g has one payoff array per player, player i's array has the
+   shape nums rotated i times (own action first, opponents in cyclic order) and the right length.
+   `inr nums a`: a is an action profile (a_i < nums_i). *)
 From Coq Require Import ZArith QArith List Bool Arith.
-From QE Require Import Base.Num C14.Model C14.Proofs.
+From QE Require Import Base.Num C14.Model C14.Proofs C14.Proofs2 C14.Proofs3 C14.Proofs4.
 Import ListNotations.
 
-Theorem C14_size_nil : size [] = 1%nat.
-Proof. exact size_nil. Qed.
-Print Assumptions C14_size_nil.
+Theorem C14_views_agree : forall (T : Type) (d : T) (prof : arr T) (nums : list nat),
+  shape prof = nums ++ [length nums] -> (0 < length nums)%nat ->
+  exists g, players_of_profile d prof = Some g /\ consistent g nums /\
+    forall a i, inr nums a -> (i < length nums)%nat ->
+      get d (player g i) (rotl i a) = get d prof (a ++ [i]) /\
+      nth i (nfg_getitem d g a) d = get d prof (a ++ [i]) /\
+      get d (profile_of_players d g) (a ++ [i]) = get d prof (a ++ [i]).
+Proof. exact @views_agree. Qed.
+Print Assumptions C14_views_agree.
+
+Theorem C14_views_agree_game : forall (T : Type) (d : T) (g : game T) nums a i,
+  consistent g nums -> inr nums a -> (i < length nums)%nat ->
+  nth i (nfg_getitem d g a) d = get d (player g i) (rotl i a) /\
+  get d (profile_of_players d g) (a ++ [i]) = get d (player g i) (rotl i a).
+Proof. exact @views_agree_game. Qed.
+Print Assumptions C14_views_agree_game.
+
+Theorem C14_players_roundtrip : forall (T : Type) (d : T),
+  (forall (g : game T) nums, consistent g nums -> players_of_profile d (profile_of_players d g) = Some g) /\
+  (forall (prof : arr T) nums g, wf prof -> shape prof = nums ++ [length nums] -> (0 < length nums)%nat ->
+      players_of_profile d prof = Some g -> profile_of_players d g = prof).
+Proof. exact @players_roundtrip. Qed.
+Print Assumptions C14_players_roundtrip.
+
+Theorem C14_setitem_getitem : forall (T : Type) (d : T) (g : game T) nums a v,
+  consistent g nums -> inr nums a -> length v = length nums ->
+  consistent (nfg_setitem d g a v) nums /\
+  nfg_getitem d (nfg_setitem d g a v) a = v /\
+  forall b, inr nums b -> b <> a -> nfg_getitem d (nfg_setitem d g a v) b = nfg_getitem d g b.
+Proof. exact @setitem_getitem. Qed.
+Print Assumptions C14_setitem_getitem.
+
+Theorem C14_delete_action_views : forall (T : Type) (d : T) (g : game T) nums j k pidx,
+  consistent g nums -> (j < length nums)%nat ->
+  pidx = Z.of_nat j \/ pidx = (Z.of_nat j - Z.of_nat (length nums))%Z ->
+  (forall g', nfg_delete_action d g pidx k = Some g' ->
+     consistent g' (dec_at j nums) /\
+     forall a' i, inr (dec_at j nums) a' -> (i < length nums)%nat ->
+       get d (player g' i) (rotl i a') = get d (player g i) (rotl i (bump_at j k a')) /\
+       nth i (nfg_getitem d g' a') d = nth i (nfg_getitem d g (bump_at j k a')) d /\
+       get d (profile_of_players d g') (a' ++ [i]) = get d (profile_of_players d g) (bump_at j k a' ++ [i])) /\
+  ((k < nth j nums 0)%nat -> size (dec_at j nums) <> 0%nat ->
+     exists g', nfg_delete_action d g (Z.of_nat j) k = Some g').
+Proof. exact @delete_action_views. Qed.
+Print Assumptions C14_delete_action_views.
+
+(* payoff_vector: multilinear expectation for any mix of pure (indicator weight) and mixed opponents,
+   any number of opponents; `wprod acts b` is the product of the opponents' weights at profile b *)
+Theorem C14_payoff_vector_expectation : forall (P : arr Q) acts n0 osh a,
+  shape P = n0 :: osh -> Forall2 act_ok acts osh -> (a < n0)%nat ->
+  (get 0 (payoff_vector P acts) [a] ==
+   sumQl (map (fun b => wprod acts b * get 0 P (a :: b)) (indices osh)))%Q.
+Proof. exact payoff_vector_expectation. Qed.
+Print Assumptions C14_payoff_vector_expectation.
+
+Theorem C14_best_response_spec : forall (P : arr Q) acts tol,
+  let pv := adata (payoff_vector P acts) in
+  (0 <= tol)%Q -> pv <> [] ->
+  let r := best_response P acts None tol in
+  (r < length pv)%nat /\ (vmax pv - tol <= nth r pv 0)%Q /\
+  (forall j, (j < r)%nat -> ~ (vmax pv - tol <= nth j pv 0)%Q) /\
+  (forall k, (k < length pv)%nat -> (nth k pv 0 - tol <= nth r pv 0)%Q).
+Proof. exact best_response_spec. Qed.
+Print Assumptions C14_best_response_spec.
+
+Theorem C14_is_best_response_spec : forall (P : arr Q) acts tol,
+  let pv := adata (payoff_vector P acts) in pv <> [] ->
+  (forall a, is_best_response P (Pure a) acts tol = true <->
+             forall k, (k < length pv)%nat -> (nth k pv 0 - tol <= nth a pv 0)%Q) /\
+  (forall p, is_best_response P (Mixed p) acts tol = true <->
+             forall k, (k < length pv)%nat -> (nth k pv 0 - tol <= sumQl (map2 Qmult p pv))%Q).
+Proof.
+  intros P acts tol pv Hne. split; [intros a; exact (is_best_response_pure P acts tol a Hne) | intros p; exact (is_best_response_mixed P acts tol p Hne)].
+Qed.
+Print Assumptions C14_is_best_response_spec.
+
+Theorem C14_is_nash_spec : forall (g : game Q) (prof : list (action Q)) tol,
+  (0 < length g)%nat -> length prof = length g ->
+  (is_nash g prof tol = true <->
+   forall i, (i < length g)%nat ->
+     is_best_response (player g i) (nth i prof (Pure 0)) (opponents i prof) tol = true).
+Proof. exact is_nash_spec. Qed.
+Print Assumptions C14_is_nash_spec.
+
+(* pure profiles: is_nash is the textbook definition read from the players' arrays *)
+Theorem C14_is_nash_pure_spec : forall (g : game Q) nums a tol, consistent g nums -> inr nums a ->
+  (is_nash g (map (@Pure Q) a) tol = true <->
+   forall i k, (i < length nums)%nat -> (k < nth i nums 0)%nat ->
+     (payoff 0 g (replace_at i k a) i - tol <= payoff 0 g a i)%Q).
+Proof. exact is_nash_pure_spec. Qed.
+Print Assumptions C14_is_nash_pure_spec.
+
+Theorem C14_gam_roundtrip_indices : forall (T : Type) (d : T) (g : game T) nums,
+  consistent g nums -> size nums <> 0%nat -> gam_parse d (gam_dump d g) = Some g.
+Proof. exact @gam_roundtrip. Qed.
+Print Assumptions C14_gam_roundtrip_indices.
+
+(* ---- the hypotheses are satisfiable: a 2 x 3 x 2 game with distinct payoffs *)
+Definition ex_prof : arr Z := ([2; 3; 2; 3]%nat, map Z.of_nat (seq 0 36)).
+Definition ex_game : game Z := match players_of_profile 0%Z ex_prof with Some g => g | None => [] end.
+Example ex_consistent : consistent ex_game [2; 3; 2]%nat.
+Proof.
+  assert (E : consistentb ex_game = true) by (vm_compute; reflexivity).
+  apply consistentb_spec in E. exact (proj1 E).
+Qed.
+Example ex_views : nfg_getitem 0%Z ex_game [1; 2; 0]%nat = [30; 31; 32]%Z /\
+                   get 0%Z (player ex_game 1) [2; 0; 1]%nat = 31%Z /\
+                   get 0%Z (player ex_game 2) [0; 1; 2]%nat = 32%Z.
+Proof. vm_compute. auto. Qed.
+Example ex_delete : exists g', nfg_delete_action 0%Z ex_game (-2)%Z 1 = Some g' /\
+                               nfg_getitem 0%Z g' [1; 1; 0]%nat = [30; 31; 32]%Z.
+Proof. eexists. split; vm_compute; reflexivity. Qed.
+Example ex_gam : gam_parse 0%Z (gam_dump 0%Z ex_game) = Some ex_game.
+Proof. vm_compute. reflexivity. Qed.
+Example ex_payoff_vector :
+  adata (payoff_vector (T:=Q) ([2; 2; 2]%nat, [1; 2; 3; 4; 5; 6; 7; 8]%Q) [Mixed [1#2; 1#2]%Q; Pure 1]) = [3; 7]%Q /\
+  Forall2 act_ok [Mixed [1#2; 1#2]%Q; Pure 1] [2; 2]%nat.
+Proof. split; [vm_compute; reflexivity | repeat constructor]. Qed.
